@@ -8,6 +8,7 @@ import thermosteam as tmo
 from thermosteam import equilibrium as eq
 from hypothesis import strategies as st
 from vlib import chem
+from vlib.runner import Violation
 
 PROPERTY = 'C08'
 RULE = ('Hypothesis draws 1-5 distinct chemicals in arbitrary order from 20 volatile database chemicals (in 40 % of the '
@@ -320,7 +321,15 @@ def solve(ctx, s, op, spec, z=None, site=None):
     if op == 'bubP': r = ctx.call(site, s.BP, zin, T=spec, region=region); w = r.y
     elif op == 'bubT': r = ctx.call(site, s.BP, zin, P=spec, region=region); w = r.y
     elif op == 'dewP': r = ctx.call(site, s.DP, zin, T=spec, region=region); w = r.x
-    else: r = ctx.call(site, s.DP, zin, P=spec, region=region); w = r.x
+    else:
+        try:
+            r = ctx.call(site, s.DP, zin, P=spec, region=region); w = r.x
+        except Violation as v:
+            # classify a diverged dew-temperature solve by the quality of DewPoint's own initial guess (C08-F5)
+            if '|exc:' in v.sig and s.npos > 1:
+                head, kind = v.sig.rsplit('|', 1)
+                raise Violation(f'{head},{guess_tag(s, spec)}|{kind}', v.msg)
+            raise
     if zin.tobytes() != snap:
         ctx.fail(f'{site}|{region}|z-modified', 'the caller\'s composition array was modified')
     T, P = float(r.T), float(r.P)
